@@ -264,59 +264,63 @@ def populated_paths(msg, prefix=''):
 
 
 # ---- executing one sample ------------------------------------------------------------------------------
-def execute(w, path, text):
-    obs = dict(compiles=True, syntax_error=None, functions=[], raised=None, returned=False, calls=[], stage='compile')
+def execute(w, path, text, repeat=3):
+    """compile once, then load and run the sample `repeat` times (a sample whose call only sometimes reaches the server is
+    racy, not correct); every run is reported."""
+    obs = dict(compiles=True, syntax_error=None, functions=[], runs=[])
     try:
         code = compile(text, path, 'exec')
     except SyntaxError as e:
         obs['compiles'] = False; obs['syntax_error'] = f'{e.msg} (line {e.lineno})'
         return obs
-    with w.lock:
-        w.epoch += 1
-        epoch = w.epoch
-    out = io.StringIO()
-    try:
-        with contextlib.redirect_stdout(out):
-            ns = {'__name__': 'sample_under_test', '__file__': path}
-            obs['stage'] = 'import'
-            exec(code, ns)
-            fns = sorted(n for n, v in ns.items() if n.startswith('sample_') and callable(v))
-            obs['functions'] = fns
-            obs['stage'] = 'run'
-            if len(fns) == 1:
-                fn = ns[fns[0]]
-                obs['is_async'] = asyncio.iscoroutinefunction(fn)
-                if obs['is_async']:
-                    asyncio.run(fn())
-                else:
-                    fn()
-                obs['returned'] = True
-    except BaseException as e:           # noqa - a sample may raise anything, including SystemExit
-        if isinstance(e, KeyboardInterrupt):
-            raise
-        tb = traceback.extract_tb(e.__traceback__)
-        fr = next((f for f in reversed(tb) if f.filename == path), None)
-        obs['raised'] = dict(type=type(e).__name__, msg=str(e)[:300], line=fr.lineno if fr else 0,
-                             text=(fr.line or '') if fr else '')
-    w.settle()
-    obs['stdout'] = out.getvalue()[:300]
-    with w.lock:
-        mine = [c for c in w.calls if c['epoch'] == epoch]
-    for c in mine:
-        svc_rpc = w.paths.get(c['path'])
-        reqs = []
-        for raw in c['reqs']:
-            if not svc_rpc:
-                reqs.append(['?unknown-path']); continue
-            m = w.pool.cls(w.pl['rpcs'][svc_rpc[1]]['req'])()
-            try:
-                m.ParseFromString(raw)
-                reqs.append(populated_paths(m))
-            except Exception as e:
-                reqs.append(['?decode:' + type(e).__name__])
-        obs['calls'].append(dict(path=c['path'], via=c['via'], service=svc_rpc[0] if svc_rpc else None,
-                                 rpc=svc_rpc[1] if svc_rpc else None, nreq=len(c['reqs']), reqs=reqs,
-                                 decode_error=c.get('decode_error')))
+    for _ in range(repeat):
+        run = dict(raised=None, returned=False, calls=[], stage='import')
+        with w.lock:
+            w.epoch += 1
+            epoch = w.epoch
+        out = io.StringIO()
+        try:
+            with contextlib.redirect_stdout(out):
+                ns = {'__name__': 'sample_under_test', '__file__': path}
+                exec(code, ns)
+                fns = sorted(n for n, v in ns.items() if n.startswith('sample_') and callable(v))
+                obs['functions'] = fns
+                run['stage'] = 'run'
+                if len(fns) == 1:
+                    fn = ns[fns[0]]
+                    obs['is_async'] = asyncio.iscoroutinefunction(fn)
+                    if obs['is_async']:
+                        asyncio.run(fn())
+                    else:
+                        fn()
+                    run['returned'] = True
+        except BaseException as e:           # noqa - a sample may raise anything, including SystemExit
+            if isinstance(e, KeyboardInterrupt):
+                raise
+            tb = traceback.extract_tb(e.__traceback__)
+            fr = next((f for f in reversed(tb) if f.filename == path), None)
+            run['raised'] = dict(type=type(e).__name__, msg=str(e)[:300], line=fr.lineno if fr else 0,
+                                 text=(fr.line or '') if fr else '')
+        w.settle()
+        run['stdout'] = out.getvalue()[:300]
+        with w.lock:
+            mine = [c for c in w.calls if c['epoch'] == epoch]
+        for c in mine:
+            svc_rpc = w.paths.get(c['path'])
+            reqs = []
+            for raw in c['reqs']:
+                if not svc_rpc:
+                    reqs.append(['?unknown-path']); continue
+                m = w.pool.cls(w.pl['rpcs'][svc_rpc[1]]['req'])()
+                try:
+                    m.ParseFromString(raw)
+                    reqs.append(populated_paths(m))
+                except Exception as e:
+                    reqs.append(['?decode:' + type(e).__name__])
+            run['calls'].append(dict(path=c['path'], via=c['via'], service=svc_rpc[0] if svc_rpc else None,
+                                     rpc=svc_rpc[1] if svc_rpc else None, nreq=len(c['reqs']), reqs=reqs,
+                                     decode_error=c.get('decode_error')))
+        obs['runs'].append(run)
     return obs
 
 
@@ -474,7 +478,7 @@ def main():
             imports, uses = import_check(text, root, pl['root_module'])
             obs = dict(kinds=kinds, texts=texts, start_tags=ts, end_tags=te, imports=imports, uses=uses,
                        final_newline=text.endswith('\n'))
-            obs['exec'] = execute(w, f, text)
+            obs['exec'] = execute(w, f, text, repeat=int(pl.get('repeat', 3)))
             result['samples'][os.path.basename(f)] = obs
         metas = sorted(glob.glob(os.path.join(sdir, 'snippet_metadata*.json')))
         if metas:
